@@ -1,7 +1,7 @@
 (* C06 — whatever the library signs it also verifies.  For any signature scheme whose
    correctness law holds (an explicit premise, not an axiom). *)
 From Model Require Import Bytes Prim Tables Cert KAC Mapping Sig LS RI Crypto.
-From Proofs Require Import CryptoProofs SignRT ElsChain SpecRA SpecRI.
+From Proofs Require Import CryptoProofs SignRT ElsChain SpecRA SpecRI LSStrip.
 From Spec Require Import Wire SpecTables.
 Open Scope Z_scope.
 
@@ -87,3 +87,15 @@ Theorem C06_router_info_verifies_after_wire :
               verdict verify (ri_verify_queries i) = true.
 Proof. exact router_info_verifies_after_wire. Qed.
 Print Assumptions C06_router_info_verifies_after_wire.
+
+(* LeaseSet (version 1), after the wire: whatever ReadLeaseSet accepts serialises to bytes that it
+   accepts again as the very same value, so every verdict about the value — Verify() in
+   particular, for any scheme — is the same before and after another trip over the wire *)
+Theorem C06_lease_set_same_value_after_wire : forall verify d l, wf d -> read_lease_set d = Ok l ->
+  exists b l', lease_set_bytes l = Ok b /\ read_lease_set b = Ok l' /\
+               verdict verify (ls_verify_queries l') = verdict verify (ls_verify_queries l).
+Proof.
+  intros verify d l W H. destruct (read_lease_set_strip d l W H) as [b [r [B [_ R]]]].
+  exists b, l. split; [exact B|]. split; [exact R|reflexivity].
+Qed.
+Print Assumptions C06_lease_set_same_value_after_wire.
